@@ -2,6 +2,7 @@ package compact
 
 import (
 	"bytes"
+	"sort"
 	"context"
 	"errors"
 	"io"
@@ -77,6 +78,8 @@ func (b *verifBucket) list(dir string, recursive bool) []*verifObject {
 		}
 		out = append(out, o)
 	}
+	// objstore contract: entries are passed in sorted order
+	sort.Slice(out, func(i, j int) bool { return out[i].name < out[j].name })
 	return out
 }
 func (b *verifBucket) Iter(_ context.Context, dir string, f func(string) error, options ...objstore.IterOption) error {
